@@ -186,6 +186,13 @@ def make_probe(seed, slot, status, loc, office="G", district=None, threshold=100
         r = plausible_result(rng, b)
         u.update(pev=below, r_dem=int(r[0] * 0.4), r_gop=int(r[1] * 0.4))
         u["r_turnout"] = u["r_dem"] + u["r_gop"] + 3
+    elif status in ("nonrep_hair", "nonrep_hair2"):
+        # counted almost completely: a percentage a hair below the threshold (199 999 of 200 000 expected ballots; the
+        # float just below the threshold)
+        r = plausible_result(rng, b)
+        pev = threshold - 0.0005 if status == "nonrep_hair" else math.nextafter(float(threshold), 0.0)
+        u.update(pev=pev, r_dem=int(r[0] * 0.9), r_gop=int(r[1] * 0.9))
+        u["r_turnout"] = u["r_dem"] + u["r_gop"] + 3
     elif status == "nonrep_exceed":
         u.update(pev=below, r_dem=9 * bd, r_gop=9 * bg, r_turnout=9 * b[2])
     elif status == "unexpected":
